@@ -343,7 +343,7 @@ impl<'a> G<'a> {
         self.last_int = prev_int;
     }
     fn eval_op(&mut self) {
-        let (s, t) = [("+", "PLUS"), ("-", "MINUS"), ("*", "STAR"), ("/", "FSLASH"), ("**", "STAR2"), ("<", "LT"), (">", "GT"), ("<=", "LE"), (">=", "GE"), ("=", "ASSIGN"), ("^=", "NE"), ("~=", "NE"), ("ne", "KwNE"), ("EQ", "KwEQ"), ("lt", "KwLT"), ("Gt", "KwGT"), ("le", "KwLE"), ("ge", "KwGE"), ("and", "KwAND"), ("OR", "KwOR"), ("in", "KwIN"), ("#", "HASH"), ("&", "AMP"), ("|", "PIPE")][self.u.below(24)];
+        let (s, t) = [("+", "PLUS"), ("-", "MINUS"), ("*", "STAR"), ("/", "FSLASH"), ("**", "STAR2"), ("<", "LT"), (">", "GT"), ("<=", "LE"), (">=", "GE"), ("=", "ASSIGN"), ("^=", "NE"), ("~=", "NE"), ("\u{ac}=", "NE"), ("ne", "KwNE"), ("EQ", "KwEQ"), ("lt", "KwLT"), ("Gt", "KwGT"), ("le", "KwLE"), ("ge", "KwGE"), ("and", "KwAND"), ("OR", "KwOR"), ("in", "KwIN"), ("#", "HASH"), ("&", "AMP"), ("|", "PIPE")][self.u.below(25)];
         let wordy = s.chars().all(|c| c.is_ascii_alphabetic());
         // a mnemonic is recognized after whitespace or any character that cannot continue a name (')', '.', a quote, ...)
         // (not directly after a closing quote: 'q'ne would read the n as a name-literal suffix - the lexer's documented suffix rule)
@@ -399,7 +399,7 @@ impl<'a> G<'a> {
         let hidden = nm.to_ascii_lowercase() == "%str" || nm.to_ascii_lowercase() == "%nrstr";
         self.mark("(", MK::Delim("LPAREN", hidden)); let w = self.pick(&["b", "a b", "x1", "v"]); self.p(w); self.tp(); self.mark(")", MK::Delim("RPAREN", hidden));
     }
-    fn put_stmt(&mut self) { self.feat("put"); self.pk("%put"); self.rws(); self.text_expr(); self.mark(";", MK::Delim("SEMI", false)); }
+    fn put_stmt(&mut self) { self.feat("put"); self.pk("%put"); self.rws(); if self.u.coin(1, 6) { let t = self.pick(&["_all_", "_user_", "_LOCAL_", "NOTE: done", "ERROR- bad value", "WARNING: x=", "&=v", "&=v &=v"]); self.p(t); self.p(" "); } self.text_expr(); self.mark(";", MK::Delim("SEMI", false)); }
     fn comment_stmt(&mut self) { self.feat("comment-stmt"); match self.u.below(4) { 0 => self.p("* a comment, with 'stuff;"), 1 => self.p("%* macro comment 'with ; quoted' \"and ;\";"), 2 => self.p("/* block ; comment */"), _ => self.p("*;") } }
     fn datalines_block(&mut self) { if self.in_macro > 0 { return self.open_stmt(); } self.feat("datalines"); if !self.out.trim_end_matches(|c: char| c.is_whitespace()).ends_with(';') && !self.out.is_empty() { self.p(";"); } match self.u.below(4) { 0 => self.p("datalines;\n1 2 3\nabc def\n;"), 1 => self.p("cards ;\n;"), 2 => self.p("DATALINES4;\na;b;;;c\n'x\n;;;;"), _ => self.p("lines;\n%notmacro &x /* not comment\n;") } }
     fn if_stmt(&mut self) {
@@ -407,7 +407,7 @@ impl<'a> G<'a> {
         if self.u.coin(1, 2) { self.do_block(); } else { self.simple_macro_stmt(); }
         if self.u.coin(1, 3) { self.feat("else"); self.plain_ws(); self.pk("%else"); self.rws(); match self.u.below(5) { 0 | 1 => self.do_block(), 2 if self.depth < 4 => { self.feat("else-if"); self.d_inc(); self.if_stmt(); self.depth -= 1; } _ => self.simple_macro_stmt() } }
     }
-    fn simple_macro_stmt(&mut self) { match self.u.below(3) { 0 => self.let_stmt(), 1 => self.put_stmt(), _ => self.open_stmt() } }
+    fn simple_macro_stmt(&mut self) { match self.u.below(5) { 0 => self.let_stmt(), 1 => self.put_stmt(), 2 => self.call_stmt(), 3 => { self.feat("builtin-as-statement"); self.d_inc(); self.builtin_call(0); self.depth -= 1; self.ows_no_paren(); self.p(";"); } _ => self.open_stmt() } }
     fn do_block(&mut self) {
         self.feat("do"); self.pk("%do");
         match self.u.below(5) {
